@@ -496,7 +496,28 @@ def build(spec):
     props = dict(obj.sorted_container_properties())
     for name, vspec in spec['set'].items():
         setattr(obj, name, spec_to_value(props[name], vspec))
+    fix = _SEMANTIC_FIXUPS.get(cls.__name__)
+    if fix is not None:
+        fix(obj)
     return obj
+
+
+def _fix_sample_array_value(obj):
+    """BICEPS: ApplyAnnotation/@AnnotationIndex refers to an existing Annotation, @SampleIndex to an existing sample
+    (the schema cannot say so; a value that points nowhere is an invalid input, not a case of any property)."""
+    n_ann = len(obj.Annotation or [])
+    n_samples = len(obj.Samples or [])
+    if not obj.ApplyAnnotation:
+        return
+    if n_ann == 0 or n_samples == 0:
+        obj.ApplyAnnotation = []
+        return
+    for a in obj.ApplyAnnotation:
+        a.AnnotationIndex = (a.AnnotationIndex or 0) % n_ann
+        a.SampleIndex = (a.SampleIndex or 0) % n_samples
+
+
+_SEMANTIC_FIXUPS = {'SampleArrayValue': _fix_sample_array_value}
 
 
 def spec_stats(spec, acc=None) -> dict:
